@@ -1,1 +1,243 @@
+//! Shared driver for C12 / C13: walks the complete evolution history of a real
+//! KES key (one of the 14 sum / compact-sum types) and records plain-data
+//! observations; the oracles live in c12.rs / c13.rs.
 
+use mc_core::catch;
+use mc_core::panics::PanicInfo;
+use pallas_crypto::kes::summed_kes::*;
+use pallas_crypto::kes::traits::{KesCompactSig, KesSig, KesSk};
+
+#[derive(Default, Clone)]
+pub struct SigObs {
+    pub msg: usize,
+    pub bytes: Vec<u8>,
+    /// `from_bytes(to_bytes(sig))` is `Ok`, equals `sig`, and serialises to the same bytes.
+    pub roundtrip: Result<(), String>,
+    /// The deserialised copy verifies at the harness' period count t.
+    pub roundtrip_verifies: Option<bool>,
+    /// (period p, verify(p, pk, msg) is Ok, error text)
+    pub verify: Vec<(u32, bool, String)>,
+}
+
+#[derive(Default, Clone)]
+pub struct Step {
+    /// number of successful `update` calls before this state
+    pub t: u32,
+    pub period: u32,
+    pub pk: [u8; 32],
+    pub buf: Vec<u8>,
+    pub sigs: Vec<SigObs>,
+    /// result of the `update` attempted in this state
+    pub update: Result<(), String>,
+    /// buffer and reported period after a failed update
+    pub after_failed_update: Option<(Vec<u8>, u32)>,
+}
+
+#[derive(Default)]
+pub struct Walk {
+    pub keygen_pk: [u8; 32],
+    pub seed_after_keygen: [u8; 32],
+    pub steps: Vec<Step>,
+    pub panic: Option<(String, PanicInfo)>,
+    pub updates_attempted: u64,
+}
+
+#[derive(Default)]
+pub struct Resume {
+    pub period: u32,
+    pub pk: [u8; 32],
+    pub sig: Vec<u8>,
+    pub update_ok: bool,
+    pub buf_after: Vec<u8>,
+}
+
+pub type Periods<'p> = &'p (dyn Fn(u32) -> Vec<u32> + Sync);
+
+#[derive(Clone, Copy)]
+pub struct KesType {
+    pub name: &'static str,
+    pub family: &'static str,
+    pub depth: u32,
+    pub compact: bool,
+    pub buf_len: usize,
+    pub walk: fn(&[u8; 32], &[Vec<u8>], Periods) -> Walk,
+    pub resume: fn(&[u8], &[u8]) -> Result<Resume, String>,
+}
+
+macro_rules! kes_type {
+    ($sk:ident, $sig:ident, $depth:expr, $compact:expr) => {{
+        fn walk(seed: &[u8; 32], msgs: &[Vec<u8>], periods: Periods) -> Walk {
+            let mut w = Walk::default();
+            let mut buf = vec![0u8; $sk::SIZE + 4];
+            let mut s = *seed;
+            {
+                macro_rules! guard {
+                    ($op:expr, $e:expr) => {
+                        match catch(|| $e) {
+                            Ok(v) => v,
+                            Err(p) => {
+                                w.panic = Some(($op.to_string(), p));
+                                break;
+                            }
+                        }
+                    };
+                }
+                let b = &mut buf[..];
+                let sr = &mut s[..];
+                let (mut sk, pk) = match catch(move || $sk::keygen(b, sr)) {
+                    Ok(v) => v,
+                    Err(p) => {
+                        w.panic = Some(("keygen".to_string(), p));
+                        return w;
+                    }
+                };
+                w.keygen_pk.copy_from_slice(pk.as_bytes());
+                let total: u32 = 1 << $depth;
+                let mut t: u32 = 0;
+                #[allow(clippy::never_loop)]
+                loop {
+                    let mut st = Step { t, ..Default::default() };
+                    st.period = guard!("get_period", sk.get_period());
+                    let tp = guard!("to_pk", sk.to_pk());
+                    st.pk.copy_from_slice(tp.as_bytes());
+                    st.buf = guard!("as_bytes", sk.as_bytes().to_vec());
+                    let mut broke = false;
+                    for (mi, m) in msgs.iter().enumerate() {
+                        let sig = match catch(|| sk.sign(m)) {
+                            Ok(v) => v,
+                            Err(p) => {
+                                w.panic = Some(("sign".to_string(), p));
+                                broke = true;
+                                break;
+                            }
+                        };
+                        let mut so = SigObs { msg: mi, ..Default::default() };
+                        so.bytes = match catch(|| sig.to_bytes().to_vec()) {
+                            Ok(v) => v,
+                            Err(p) => {
+                                w.panic = Some(("Sig::to_bytes".to_string(), p));
+                                broke = true;
+                                break;
+                            }
+                        };
+                        match catch(|| $sig::from_bytes(&so.bytes)) {
+                            Err(p) => {
+                                w.panic = Some(("Sig::from_bytes".to_string(), p));
+                                broke = true;
+                                break;
+                            }
+                            Ok(Err(e)) => so.roundtrip = Err(format!("from_bytes failed: {e}")),
+                            Ok(Ok(s2)) => {
+                                so.roundtrip = if s2 != sig {
+                                    Err("from_bytes(to_bytes(sig)) != sig".to_string())
+                                } else if s2.to_bytes()[..] != so.bytes[..] {
+                                    Err("to_bytes(from_bytes(bytes)) != bytes".to_string())
+                                } else {
+                                    Ok(())
+                                };
+                                so.roundtrip_verifies = catch(|| s2.verify(t, &pk, m).is_ok()).ok();
+                            }
+                        }
+                        for p in periods(t) {
+                            match catch(|| sig.verify(p, &pk, m)) {
+                                Ok(r) => so.verify.push((p, r.is_ok(), r.err().map(|e| e.to_string()).unwrap_or_default())),
+                                Err(pn) => {
+                                    w.panic = Some((format!("Sig::verify(period {p})"), pn));
+                                    broke = true;
+                                    break;
+                                }
+                            }
+                        }
+                        if broke {
+                            break;
+                        }
+                        st.sigs.push(so);
+                    }
+                    if broke {
+                        w.steps.push(st);
+                        break;
+                    }
+                    w.updates_attempted += 1;
+                    match catch(|| sk.update()) {
+                        Err(p) => {
+                            w.panic = Some(("update".to_string(), p));
+                            w.steps.push(st);
+                            break;
+                        }
+                        Ok(Ok(())) => {
+                            st.update = Ok(());
+                            w.steps.push(st);
+                        }
+                        Ok(Err(e)) => {
+                            st.update = Err(e.to_string());
+                            let after = guard!("as_bytes", sk.as_bytes().to_vec());
+                            let per = guard!("get_period", sk.get_period());
+                            st.after_failed_update = Some((after, per));
+                            w.steps.push(st);
+                            break;
+                        }
+                    }
+                    t += 1;
+                    if t > total {
+                        // the implementation never refused to evolve: stop, the oracle reports it
+                        break;
+                    }
+                }
+                // sk dropped here (zeroises the buffer)
+            }
+            w.seed_after_keygen = s;
+            w
+        }
+        fn resume(state: &[u8], msg: &[u8]) -> Result<Resume, String> {
+            let mut b = state.to_vec();
+            catch(move || {
+                let mut sk = $sk::from_bytes(&mut b).map_err(|e| e.to_string())?;
+                let mut r = Resume { period: sk.get_period(), ..Default::default() };
+                r.pk.copy_from_slice(sk.to_pk().as_bytes());
+                r.sig = sk.sign(msg).to_bytes().to_vec();
+                r.update_ok = sk.update().is_ok();
+                r.buf_after = sk.as_bytes().to_vec();
+                Ok(r)
+            })
+            .unwrap_or_else(|p| Err(format!("panic: {} at {}", p.message, p.location)))
+        }
+        KesType {
+            name: stringify!($sk),
+            family: if $compact { "sum_compact_kes" } else { "sum_kes" },
+            depth: $depth,
+            compact: $compact,
+            buf_len: $sk::SIZE + 4,
+            walk,
+            resume,
+        }
+    }};
+}
+
+pub fn all_types() -> Vec<KesType> {
+    vec![
+        kes_type!(Sum1Kes, Sum1KesSig, 1, false),
+        kes_type!(Sum2Kes, Sum2KesSig, 2, false),
+        kes_type!(Sum3Kes, Sum3KesSig, 3, false),
+        kes_type!(Sum4Kes, Sum4KesSig, 4, false),
+        kes_type!(Sum5Kes, Sum5KesSig, 5, false),
+        kes_type!(Sum6Kes, Sum6KesSig, 6, false),
+        kes_type!(Sum7Kes, Sum7KesSig, 7, false),
+        kes_type!(Sum1CompactKes, Sum1CompactKesSig, 1, true),
+        kes_type!(Sum2CompactKes, Sum2CompactKesSig, 2, true),
+        kes_type!(Sum3CompactKes, Sum3CompactKesSig, 3, true),
+        kes_type!(Sum4CompactKes, Sum4CompactKesSig, 4, true),
+        kes_type!(Sum5CompactKes, Sum5CompactKesSig, 5, true),
+        kes_type!(Sum6CompactKes, Sum6CompactKesSig, 6, true),
+        kes_type!(Sum7CompactKes, Sum7CompactKesSig, 7, true),
+    ]
+}
+
+pub fn pattern(len: usize, salt: u64) -> Vec<u8> {
+    let mut x: u64 = 0x1357_9bdf_0246_8ace ^ salt.wrapping_mul(0x9e37_79b9_7f4a_7c15);
+    (0..len)
+        .map(|_| {
+            x = x.wrapping_mul(6364136223846793005).wrapping_add(1442695040888963407);
+            (x >> 56) as u8
+        })
+        .collect()
+}
